@@ -28,6 +28,8 @@ def polyStep (toks : List String) : Option String :=
   | ["eval2", p, x, y] => do pure (showQ (eval2 (← parseRows p) (← parseQ x) (← parseQ y)))
   | ["shift2", s1, a1, s2, a2, p] => do
     pure (showRows (shift2 (← parseQ s1) (← parseQ a1) (← parseQ s2) (← parseQ a2) (← parseRows p)))
+  | ["xyz", n, px, py, pz, ts] => do
+    pure (showQs (xyzDerEvalFlat (← n.toNat?) (← parseQs px) (← parseQs py) (← parseQs pz) (← parseQs ts)))
   | _ => none
 
 end Sarpy.Drivers
